@@ -210,7 +210,7 @@ func checkC15(env *Env) []Violation {
 	closed := false
 	anyFault := false
 	sendFaultSeen := false
-	refusedInMsg := false   // a write of the current message was refused
+	refusedInMsg := false    // a write of the current message was refused
 	abandonedPrefix := false // bytes of an abandoned message are still in the model buffer
 	multiBroken := false
 	stale := 0
